@@ -28,7 +28,8 @@ RULE = ("Cases = (request body length, response body length, client maximum size
         "optional misbehaviour). Corpus first; then the full boundary table: body lengths "
         "0,1,15,16,17,...,1023,1024,1025,1123,1124,1125,2047,2048,2049,multi-kB x client szx 0..6 "
         "x reduction schedules for uploads and x server szx 0..6 x client szx for downloads, every "
-        "misbehaviour kind at first/middle/last position, BlockwiseTuple arithmetic on all "
+        "misbehaviour kind (19, incl. a first answer labelled as a later LAST block and a response "
+        "code that changes in mid-download) at first/middle/last position, BlockwiseTuple arithmetic on all "
         "(szx, max) pairs; then random cases from the seeded PRNG (lengths drawn around block "
         "boundaries, random per-block reductions, <= 40 % misbehaving). Non-trivial: at least two "
         "block exchanges happened; distinct by the full case description.")
@@ -315,7 +316,8 @@ def oracle(case, obs):
     if kind in ref.MUST_ERROR:
         if out[0] == "ok":
             what = "the server's body" if out[3] == rep else (
-                "a strict prefix" if rep.startswith(out[3]) else "a mixed/duplicated body")
+                "a strict prefix" if rep.startswith(out[3]) else
+                "a fragment of the body" if out[3] and out[3] in rep else "a mixed/duplicated body")
             return ("server misbehaved (%s) but the request returned a body (%d bytes: %s) instead of an error"
                     % (kind, len(out[3]), what)), "misbehaviour-accepted:" + kind
         if out[0] == "pending":
@@ -406,6 +408,22 @@ def boundary_cases():
                         mis={"kind": "first_nonzero", "n": 0, "delta": delta}))
         cases.append(mk(plen=10, rlen=100, szx0=2, default=(1, False),
                         mis={"kind": "b1_unfrag_wrongnum", "n": 0, "delta": delta}))
+    # the first answer labelled as a later, LAST block (tail of a body), after a plain request and
+    # after an upload; a continuation block with another response code (error response carrying a
+    # Block2 option and a diagnostic payload, or an honest slice under another success code)
+    for delta in (0, 1, 2):
+        for (L, R, szx0, ssz) in ((0, 4000, 6, 6), (0, 100, 6, 0), (100, 40, 0, 0), (1125, 10, 6, 6), (0, 5, 3, 3)):
+            cases.append(mk(plen=L, rlen=R, szx0=szx0, default=(ssz, False), method="GET" if L == 0 else "POST",
+                            etag=None if delta == 2 else "c0ffee",
+                            mis={"kind": "first_late_final", "n": 0, "delta": delta}))
+    for code in (132, 128, 160, 67, 65):
+        for diag in (True, False):
+            for n in (0, 1, 4):
+                cases.append(mk(plen=0, rlen=2560, szx0=6, default=(6, False), method="GET",
+                                etag=None if diag else "01",
+                                mis={"kind": "code_change", "n": n % 2, "code": code, "diag": diag}))
+                cases.append(mk(plen=40, rlen=100, szx0=1, default=(0, False), method="POST",
+                                mis={"kind": "code_change", "n": n, "code": code, "diag": diag}))
     for cut in (0, 1, 14, 15):
         for n in (0, 1, 2):
             cases.append(mk(plen=0, rlen=100, szx0=6, default=(0, False), method="GET",
@@ -467,6 +485,12 @@ def random_case(rng):
                 mis["cut"] = rng.randrange(0, 1024)
             if kind == "long_block":
                 mis["extra"] = rng.choice([0, 0, 1, 15, 16])
+            if kind == "first_late_final":
+                mis["n"] = 0
+                mis["delta"] = rng.randrange(0, 4)
+            if kind == "code_change":
+                mis["code"] = rng.choice([132, 132, 128, 160, 163, 67, 65, 68])
+                mis["diag"] = rng.random() < 0.5
     return mk(plen=plen, rlen=rlen, szx0=szx0, mps=rng.choice([1124, 1124, 1124, 1024, 1200]),
               choices=choices, default=(min(cur, ssz), rng.random() < 0.3),
               etag=rng.choice([None, "01", "c0ffee", "0102030405060708"]),
